@@ -319,16 +319,27 @@ def main(pid, tier, seed):
         for mode in ('honeywords', 'random_walk'):
             jobs.append((k, mode, 25, desc))
 
+    # the honeyword modes have no session to restore: --session / --load must not change what is drawn - neither when the
+    # named session does not exist nor when an unrelated probability-order session (--all_lower) left its save file there
+    session.cli(rcopy, 'pcfg_guesser.py', ['-r', 'h0', '--all_lower', '-s', 'leftover', '-n', '3'], stdin='open')
+    for mode in ('honeywords', 'random_walk'):
+        jobs.append((0, mode, 25, cli_dirs[0][1], ['-s', 'nosuchsession', '--load']))
+        jobs.append((0, mode, 25, cli_dirs[0][1], ['-s', 'leftover', '--load']))
+
     def runcli(job):
-        k, mode, N, desc = job
+        k, mode, N, desc = job[:4]
+        extra = job[4] if len(job) > 4 else []
         outs = []
         for rep in range(2):
-            out, err, code = session.cli(rcopy, 'pcfg_guesser.py', ['-r', 'h%d' % k, '-m', mode, '-n', str(N)], stdin='open')
+            # the second run of a pair is always the plain command line (the reference a random walk must reproduce)
+            out, err, code = session.cli(rcopy, 'pcfg_guesser.py', ['-r', 'h%d' % k, '-m', mode, '-n', str(N)] + (extra if rep == 0 else []),
+                                         stdin='open')
             outs.append(session.stdout_lines(out))
         return outs
     with ThreadPoolExecutor(8) as ex:
         res = list(ex.map(runcli, jobs))
-    for (k, mode, N, desc), outs in zip(jobs, res):
+    for job, outs in zip(jobs, res):
+        k, mode, N, desc = job[:4]
         lang = lang_of_files(desc)
         ids = {}
         I = lambda x: ids.setdefault(x, len(ids) + 1)
@@ -337,6 +348,7 @@ def main(pid, tier, seed):
                         'lines2': [I(x) for x in (outs[1] if mode == 'random_walk' else outs[0])],
                         'inlang': [x in lang for x in outs[0]], 'markov': [False for x in outs[0]], 'ended': True})
         meta[tid] = {'mode': mode, 'N': N, 'got': len(outs[0]), 'ruleset': desc['base'], 'via': 'pcfg_guesser.py subprocess',
+                     'extra_args': job[4] if len(job) > 4 else [],
                      'not_in_the_language_of_the_files': [x for x in outs[0] if x not in lang][:5]}
     # a ruleset whose ONLY base structure is the Markov one (what the trainer writes for coverage 0): nothing can be drawn,
     # the session must end (HoneySession.tla: Terminates); --limit N then yields no word
